@@ -26,8 +26,9 @@ func TestC20F_Regress_KnownFindings(t *testing.T) {
 
 	// (A) cubic-discount arguments swapped up to and including ConversionSlipChangeBlock
 	for _, pn := range []uint64{params.ConversionSlipChangeBlock, params.ConversionSlipChangeBlock + 1} {
-		b := &c20fBlock{Env: env, PrimeNumber: pn, KQuaiDiscount: big.NewInt(100), FlowAmount: quai(10000), ExchangeRateIncreasing: false, NewRate: env.Rate}
-		outs, _ := c20fReprice(b, []c20fConv{{ToQi: true, Value: quai(5000)}})
+		b := &c20fBlock{Header: h, HeaderRate: env.Rate, MinerDifficulty: env.Difficulty, PrimeNumber: pn, KQuaiDiscount: big.NewInt(100), FlowAmount: quai(10000), ExchangeRateIncreasing: false, NewRate: env.Rate,
+			Etxs: []c20fConv{{Conversion: true, ToQi: true, Value: quai(5000)}}}
+		outs, _ := c20fReprice(b)
 		o := outs[0]
 		implied := misc.QuaiToQi(h, env.Rate, env.Difficulty, quai(5000))
 		dump := map[string]any{"prime_number": pn, "flow": quai(10000).String(), "conversion": "Quai->Qi 5000 Quai, no slip data", "value_before_rate": o.BeforeRate.String(), "credited_qits": o.Final.String(), "rate_implied_qits": implied.String()}
@@ -40,16 +41,16 @@ func TestC20F_Regress_KnownFindings(t *testing.T) {
 
 	// (B) accepted in the filtering pass, credited below the sender's bound after the second pass
 	{
-		b := &c20fBlock{Env: env, PrimeNumber: params.ConversionSlipChangeBlock + 1000, KQuaiDiscount: big.NewInt(5000), FlowAmount: quai(10000), ExchangeRateIncreasing: true, NewRate: env.Rate}
-		convs := []c20fConv{
-			{ToQi: true, Value: quai(100), Slip: []byte{0x02, 0x12}},                                            // slip 530 = 5.3 %
-			{ToQi: false, Value: misc.QuaiToQi(h, env.Rate, env.Difficulty, quai(15000)), Slip: []byte{0x00, 0x64}}, // slip 100 = 1 %
+		b := &c20fBlock{Header: h, HeaderRate: env.Rate, MinerDifficulty: env.Difficulty, PrimeNumber: params.ConversionSlipChangeBlock + 1000, KQuaiDiscount: big.NewInt(5000), FlowAmount: quai(10000), ExchangeRateIncreasing: true, NewRate: env.Rate}
+		b.Etxs = []c20fConv{
+			{Conversion: true, ToQi: true, Value: quai(100), Data: []byte{0x02, 0x12}},                                                // slip 530 = 5.3 %
+			{Conversion: true, ToQi: false, Value: misc.QuaiToQi(h, env.Rate, env.Difficulty, quai(15000)), Data: []byte{0x00, 0x64}}, // slip 100 = 1 %
 		}
-		outs, _ := c20fReprice(b, convs)
+		outs, _ := c20fReprice(b)
 		o := outs[0]
 		dump := map[string]any{"prime_number": b.PrimeNumber, "flow": quai(10000).String(), "kquai_discount": 5000, "rate_increasing": true,
-			"conversions":  []string{"Quai->Qi 100 Quai slip 530", "Qi->Quai worth 15000 Quai slip 100"},
-			"etx0_bound":   o.Bound.String(), "etx0_pass1": o.Pass1Value.String(), "etx0_reverted": o.Reverted, "etx0_value_before_rate": fmt.Sprint(o.BeforeRate)}
+			"conversions": []string{"Quai->Qi 100 Quai slip 530", "Qi->Quai worth 15000 Quai slip 100"},
+			"etx0_bound":  o.Bound.String(), "etx0_pass1": o.Pass1Value.String(), "etx0_reverted": o.Reverted, "etx0_value_before_rate": fmt.Sprint(o.BeforeRate)}
 		below := !o.Reverted && o.BeforeRate.Cmp(o.Bound) < 0
 		stats.Case(c20fRegressPart, "below-bound", true, fmt.Sprintf("credited_below_bound=%v", below))
 		if below {
